@@ -1,0 +1,18 @@
+//go:build verif
+
+package gonnx
+
+import "github.com/advancedclimatesystems/gonnx/onnx"
+
+// VerifParameters exposes the weight tensors of the model to the verification
+// harness (read-only use: the harness snapshots them before and after Run).
+// Only compiled with the build tag `verif`.
+func (m *Model) VerifParameters() Tensors {
+	return m.parameters
+}
+
+// VerifModelProto exposes the decoded model proto to the verification harness
+// (read-only use). Only compiled with the build tag `verif`.
+func (m *Model) VerifModelProto() *onnx.ModelProto {
+	return m.mp
+}
